@@ -522,6 +522,18 @@ func (w *nodeWorld) buildTxs(a *app.Haqq, ctx sdk.Context, tok string) [][]byte 
 		vst := sdkvesting.Periods{{Length: 1, Amount: c3(amt)}}
 		msg := vestingtypes.NewMsgConvertIntoVestingAccount(w.acc(ki(1)), sdk.AccAddress(target.Bytes()), ctx.BlockTime().Add(-10*time.Second), lock, vst, true, false, nil)
 		return [][]byte{w.cosmosTx(a, ctx, ki(1), msg)}
+	case "vestt":
+		// funder k converts key j into a vesting account whose first lockup period holds a single base unit: a
+		// liquidation from it gives the liquid denomination a first period with an empty amount (the proportional split
+		// rounds down) — which still carries its length
+		amt := mustBig(f[3])
+		c3 := func(x *big.Int) sdk.Coins {
+			return sdk.NewCoins(sdk.NewCoin(utils.BaseDenom, sdkmath.NewIntFromBigInt(x)))
+		}
+		lock := sdkvesting.Periods{{Length: 100000, Amount: c3(big.NewInt(1))}, {Length: 100000, Amount: c3(new(big.Int).Sub(amt, big.NewInt(1)))}}
+		vst := sdkvesting.Periods{{Length: 1, Amount: c3(amt)}}
+		msg := vestingtypes.NewMsgConvertIntoVestingAccount(w.acc(ki(1)), w.acc(ki(2)), ctx.BlockTime().Add(-10*time.Second), lock, vst, true, false, nil)
+		return [][]byte{w.cosmosTx(a, ctx, ki(1), msg)}
 	case "liq":
 		w.bigGas = true // liquidation deploys an ERC20 contract for the new denomination
 		defer func() { w.bigGas = false }()
@@ -727,6 +739,11 @@ func nodeGen(r *rand.Rand, tier string, prop string) []Case {
 		var liqTo []int
 		// one C19 world in three has no liquid denomination left at export: the only one is redeemed in full
 		noLiq := prop == "C19" && i%3 == 0
+		if prop == "C19" && !noLiq {
+			// a liquid denomination whose schedule starts with an empty period
+			c = append(c, "blk # dt=6 txs=vestt.4.1.3000000000000000000000|liq.1.3.1000000000000000000000")
+			liqTo = append(liqTo, 3)
+		}
 		swapAt := 2 + r.Intn(blocks-6)
 		// two worlds in three: the second validator is caught double-signing at some block (slashed, jailed, tombstoned;
 		// its delegations, unbonding entries and redelegations are slashed and the slashed coins redirected)
